@@ -20,7 +20,8 @@ Lit(b) ==
   CASE b = "INTEGER" -> <<"0", "7", "-7", "+7", "007", "2147483648">>
     [] b = "REAL"    -> <<"0.", "1.5", "-1.5", "1.E5", "1.5E-3", "2.5E+10", "0.1">>
     [] b = "NUMBER"  -> <<"3.5", "7.", "-2.5E3">>
-    [] b = "STRING"  -> <<"'abc'", "''", "'it''s'", "'with #1 (;) /* x */'", "'$'", "'back\\\\slash'">>
+    \* (text that looks like Part 21 syntax comes first: a scanner that looks for ; ( ) ' # must not find it inside a string)
+    [] b = "STRING"  -> <<"'a;b'", "'with #1 (;) /* x */'", "'abc'", "''", "'it''s;'", "'$'", "'back\\\\slash'", "');'">>
     [] b = "BOOLEAN" -> <<".T.", ".F.">>
     [] b = "LOGICAL" -> <<".T.", ".F.", ".U.">>
     [] b = "BINARY"  -> <<"\"0\"", "\"0F\"", "\"1ABC\"">>
@@ -85,13 +86,13 @@ Pop(s, n) == [i \in 1..Cardinality(Instantiable(s)) |->
                 [id |-> IdOf(e), ent |-> s.ents[e].name, params |-> Params(s, s.ents[e].name, n)]]
 
 (* editing states for C16: complete / incomplete / new rotate with the round; an instance that no other instance *)
-(* refers to is marked deleted every fourth time (the properties leave a deleted but referenced instance open)   *)
+(* refers to is marked deleted every second time (the properties leave a deleted but referenced instance open)   *)
 RECURSIVE RefsOf(_)
 RefsOf(v) == CASE v.k = "ref" -> {v.id}
                [] v.k = "typed" -> RefsOf(v.v)
                [] v.k = "list" -> UNION {RefsOf(v.items[i]) : i \in 1..Len(v.items)}
                [] OTHER -> {}
 Referenced(pop) == UNION {UNION {RefsOf(pop[i].params[j]) : j \in 1..Len(pop[i].params)} : i \in 1..Len(pop)}
-StateOf(pop, i, n) == IF pop[i].id \notin Referenced(pop) /\ (n + i) % 4 = 3 THEN "D" ELSE <<"C", "I", "N">>[((n + i) % 3) + 1]
+StateOf(pop, i, n) == IF pop[i].id \notin Referenced(pop) /\ (n + i) % 2 = 1 THEN "D" ELSE <<"C", "I", "N">>[((n + i) % 3) + 1]
 States(pop, n) == [i \in 1..Len(pop) |-> StateOf(pop, i, n)]
 =============================================================================
